@@ -4,12 +4,39 @@
 
 package l4socks
 
+// SOCKS4: VN = 4, CD in the configured commands, DSTPORT in the configured ports (if any), DSTIP
+// in one of the configured networks (if any; prefix containment is netip's, uninterpreted here).
 //@ func (m *Socks4Matcher) Match(cx *layer4.Connection) (matched bool, err error)
 //@ requires wfm(cx)
 //@ safety C04
 //@ implements[C06] (m github.com/mholt/caddy-l4/layer4.ConnMatcher) Match
+//@ loop 0 invariant !commandMatched ==> forall t int :: 0 <= t && t <= rangeindex ==> m.commands[t] != buf[1]
+//@ loop 1 invariant !portMatched ==> forall t int :: 0 <= t && t <= rangeindex ==> m.Ports[t] != port
+//@ ensures[C06] err == nil || err == layer4.ErrConsumedAllPrefetchedBytes
+//@ ensures[C06] (err == layer4.ErrConsumedAllPrefetchedBytes) == (old(avail(cx)) < 8)
+//@ ensures[C06] err != nil ==> !matched
+//@ ensures[C14] err == nil && matched ==> old(cx.buf[cx.offset]) == 4 && exists t int :: 0 <= t && t < len(m.commands) && m.commands[t] == old(cx.buf[cx.offset+1])
+//@ ensures[C14] err == nil && matched && len(m.Ports) > 0 ==> exists t int :: 0 <= t && t < len(m.Ports) && m.Ports[t] == uint16(old(cx.buf[cx.offset+2]))<<8 | uint16(old(cx.buf[cx.offset+3]))
+//@ ensures[C14] err == nil && old(cx.buf[cx.offset]) != 4 ==> !matched
+//@ ensures[C14] err == nil && len(m.cidrs) == 0 && old(cx.buf[cx.offset]) == 4 && (exists t int :: 0 <= t && t < len(m.commands) && m.commands[t] == old(cx.buf[cx.offset+1])) && (len(m.Ports) == 0 || exists t int :: 0 <= t && t < len(m.Ports) && m.Ports[t] == uint16(old(cx.buf[cx.offset+2]))<<8 | uint16(old(cx.buf[cx.offset+3]))) ==> matched
 
+// SOCKS5 (RFC 1928 section 3): VER = 5, NMETHODS, METHODS[NMETHODS]; every offered method must be
+// one of the configured ones. A first byte other than 5 is rejected at once.
+//@ pred s5known(ms []uint16, x uint8) = exists t int :: 0 <= t && t < len(ms) && ms[t] == uint16(x)
 //@ func (m *Socks5Matcher) Match(cx *layer4.Connection) (matched bool, err error)
 //@ requires wfm(cx)
 //@ safety C04
 //@ implements[C06] (m github.com/mholt/caddy-l4/layer4.ConnMatcher) Match
+//@ invariant forall k int :: 0 <= k && k <= rangeindex ==> s5known(m.AuthMethods, methods[k])
+//@ ensures[C06] err == nil || err == layer4.ErrConsumedAllPrefetchedBytes
+//@ ensures[C06] err != nil ==> !matched
+//@ ensures[C06] old(avail(cx)) < 1 ==> err == layer4.ErrConsumedAllPrefetchedBytes
+//@ ensures[C06] old(avail(cx)) >= 1 && old(cx.buf[cx.offset]) != 5 ==> err == nil && !matched
+//@ ensures[C06] old(avail(cx)) >= 1 && old(cx.buf[cx.offset]) == 5 ==> ((err == layer4.ErrConsumedAllPrefetchedBytes) == (old(avail(cx)) < 2 || old(avail(cx)) < 2 + int(old(cx.buf[cx.offset+1]))))
+//@ ensures[C14] err == nil ==> matched == (old(cx.buf[cx.offset]) == 5 && forall k int :: 0 <= k && k < int(old(cx.buf[cx.offset+1])) ==> s5known(m.AuthMethods, old(cx.buf[cx.offset+2+k])))
+
+//@ func contains(values []uint16, search uint16) bool
+//@ safety C04
+//@ assigns[C06] nothing
+//@ invariant forall t int :: 0 <= t && t <= rangeindex ==> values[t] != search
+//@ ensures[C14] result == exists t int :: 0 <= t && t < len(values) && values[t] == search
